@@ -577,6 +577,102 @@ func TestVerifH5(t *testing.T) {
 		w.other.Close()
 		synctest.Wait()
 	})
+	// the client's read loop over a stream transport (proto.STUNConn): frames of every extreme size from the server,
+	// each followed by a liveness probe (a Binding transaction must still complete)
+	synctest.Test(t, func(t *testing.T) {
+		n := newSimNet()
+		sl, lerr := n.listenTCP(net.ParseIP("10.0.0.1").To4(), 3478, true)
+		if lerr != nil {
+			vt.Alarm("h5-setup", "stream listen: %v", lerr)
+			return
+		}
+		defer sl.Close() //nolint:errcheck
+		cl, sv, err := n.dial(&net.TCPAddr{IP: net.ParseIP("10.0.0.2").To4(), Port: 5000}, &net.TCPAddr{IP: net.ParseIP("10.0.0.1").To4(), Port: 3478}, "c", "s")
+		if err != nil {
+			vt.Alarm("h5-setup", "stream dial: %v", err)
+			return
+		}
+		lf := logging.NewDefaultLoggerFactory()
+		lf.DefaultLogLevel = logging.LogLevelDisabled
+		c, err := NewClient(&ClientConfig{STUNServerAddr: "10.0.0.1:3478", TURNServerAddr: "10.0.0.1:3478", Conn: NewSTUNConn(cl), LoggerFactory: lf,
+			Username: "alice", Password: "pw", Realm: "pion.ly"})
+		if err != nil {
+			vt.Alarm("h5-setup", "NewClient over a stream: %v", err)
+			return
+		}
+		if err := c.Listen(); err != nil {
+			vt.Alarm("h5-setup", "Listen: %v", err)
+			return
+		}
+		// the server end: answers every Binding request
+		go func() {
+			sc := NewSTUNConn(sv)
+			buf := make([]byte, 70000)
+			for {
+				k, _, err := sc.ReadFrom(buf)
+				if err != nil {
+					return
+				}
+				m := &stun.Message{Raw: append([]byte{}, buf[:k]...)}
+				if m.Decode() != nil || m.Type != stun.BindingRequest {
+					continue
+				}
+				r, _ := stun.Build(stun.NewTransactionIDSetter(m.TransactionID), stun.BindingSuccess,
+					&stun.XORMappedAddress{IP: net.ParseIP("10.0.0.2").To4(), Port: 5000})
+				_, _ = sv.Write(r.Raw)
+			}
+		}()
+		frame := func(hdr []byte, total int) []byte {
+			b := make([]byte, total)
+			copy(b, hdr)
+			return b
+		}
+		stunHdr := func(l int) []byte {
+			return []byte{0x01, 0x01, byte(l >> 8), byte(l), 0x21, 0x12, 0xA4, 0x42, 1, 2, 3, 4, 5, 6, 7, 8, 9, 10, 11, 12}
+		}
+		var cases []struct {
+			name string
+			raw  []byte
+		}
+		for _, l := range []int{0, 1, 4, 1500, 0x7FFF, 0xFFEC, 0xFFF8, 0xFFFB, 0xFFFC, 0xFFFD, 0xFFFE, 0xFFFF} {
+			padded := (l + 3) / 4 * 4
+			cases = append(cases, struct {
+				name string
+				raw  []byte
+			}{fmt.Sprintf("chandata-%d", l), frame([]byte{0x40, 0x00, byte(l >> 8), byte(l)}, 4+padded)})
+		}
+		for _, l := range []int{0, 4, 1500, 0xFFEC, 0xFFF8, 0xFFFC} {
+			cases = append(cases, struct {
+				name string
+				raw  []byte
+			}{fmt.Sprintf("stun-%d", l), frame(stunHdr(l), 20+l)})
+		}
+		for _, cs := range cases {
+			vt.OpSync("trace listen-stream-%s", cs.name)
+			_, _ = sv.Write(cs.raw)
+			synctest.Wait()
+			done := make(chan error, 1)
+			go func() {
+				_, err := c.SendBindingRequest()
+				done <- err
+			}()
+			select {
+			case err := <-done:
+				if err != nil {
+					vt.Obs("dead %v", err)
+				} else {
+					vt.Obs("ok")
+				}
+			case <-time.After(30 * time.Second):
+				vt.Obs("dead no-answer")
+			}
+			vt.Flush()
+		}
+		c.Close()
+		_ = cl.Close()
+		_ = sv.Close()
+		synctest.Wait()
+	})
 	// distinct channel numbers for many peers
 	synctest.Test(t, func(t *testing.T) {
 		w := newH5World(vt)
